@@ -89,7 +89,7 @@ impl ServerSession {
             bytes_received: 0,
             bytes_received_since_last_ack: 0,
             #[cfg(feature = "verif-hooks")]
-            verif_uptime_ms: None,
+            verif_uptime_ms: ::sessions::verif_hooks::initial_uptime_ms(),
         };
 
         let mut results = Vec::with_capacity(4);
